@@ -68,7 +68,21 @@ type ZTimes struct {
 func H_C10_positions() {
 	vArith(1)
 	t, sub := vInstant()
-	switch vChoice("where", 6) {
+	switch vChoice("where", 7) {
+	case 6:
+		// zero timestamps between non-zero ones in a []time.Time field, sent without a registered list name
+		// (the list then travels untyped and is converted element by element on the way back)
+		vAssume(!t.IsZero())
+		v := &ZTimes{A: 1, Ts: []time.Time{t, {}, t, {}}}
+		tm, _ := vExtract(v)
+		bs, err := ToBytes(v, nil)
+		vAssert("encode-noerr", err == nil)
+		out, err := ToObject(bs, tm)
+		g, ok := out.(*ZTimes)
+		vAssert("decode", err == nil && ok && len(g.Ts) == 4)
+		vAssert("zero-elements-stay-zero", g.Ts[1].IsZero() && g.Ts[3].IsZero())
+		vCheckInstant("elem0", t, g.Ts[0], sub)
+		vCheckInstant("elem2", t, g.Ts[2], sub)
 	case 4:
 		// a reader may return fewer octets than asked for: one octet per Read call
 		vAssume(!t.IsZero())
